@@ -290,7 +290,8 @@ class Contract:
                         add("raises.only-when:" + exc, rz[exc], "raises",
                             text="%s raised only under its documented condition (%s)" % (exc, v.info))
                     elif not self.allow_any_exception:
-                        nc = (v.info or "").startswith("no-contract:")
+                        from vcore.obl import SOFT_MODULES
+                        nc = (v.info or "").startswith("no-contract:") and (v.info or "")[len("no-contract:"):].strip().startswith(SOFT_MODULES)
                         add("raises.none:" + exc, z3.BoolVal(False), "raises",
                             text="no %s is ever raised (%s)" % (exc, v.info),
                             sat_means=("%s -- a library call without an assumed contract: whether it can raise on these arguments is not known to the verifier "
